@@ -53,8 +53,7 @@ def replay(chk, exe, cfgname, n, nrec, nbytes):
         chk.model_violation("LogMT/" + cfgname, r)
         return
     g = tour.Graph()
-    for ln in r["lines"]["EDGE"]:
-        g.add(ln)
+    g.add_all(r["lines"]["EDGE"])
     root = json.dumps(dict(pc=["idle"] * n, rec=[1] * n, pos=[1] * n, lock=0, inside=[], n=0), separators=(",", ":"), sort_keys=True)
     paths, ncov, unreach = g.tours(root, max_len=200)
     cases = []
